@@ -61,6 +61,9 @@ impl ConnectDsu {
     pub fn alloc_witness(&mut self, expr_id: ExprId, alloc: &mut WitnessAllocator) -> (r: WitnessId)
         ensures final(self).log@ == old(self).log@.push((expr_id, r))
     { unimplemented!() }
+    /// ConnectDsu::class_witness: the slot already allocated for the class of expr_id, if any (path compression only: no allocation)
+    #[verifier::external_body]
+    pub fn class_witness(&mut self, expr_id: ExprId) -> (r: Option<WitnessId>) ensures final(self).log@ == old(self).log@ { unimplemented!() }
 }
 pub struct ExpressionGraph<F> { pub nodes: Vec<Expr<F>> }
 #[verifier::reject_recursive_types(F)]
